@@ -884,11 +884,21 @@ def r4_empty_location(ctx):
             "distance_to": [other], "parent_to_relative_pos": [3], "relative_to_parent_pos": [0], "reset_strand": [S["PLUS"]],
             "parent_to_relative_location": [other], "relative_interval_to_parent_location": [0, 1, S["PLUS"]], "reset_parent": [None],
             "union_preserve_overlaps": [other], "extend_relative": [1, 1], "first_ancestor_of_type": ["chromosome"], "location_relative_to": [other]}
+    def ask(m, a):
+        """the member as a client reaches it: attribute access on the object, then a call when it is a method"""
+        try:
+            val = it.getattr(e, m, None, 0)
+            if isinstance(val, tuple) and val and val[0] in ("bound", "closure", "rawfn", "lambda"):
+                val = it.apply(val, list(a), {}, None, 0)
+            return "ok", val
+        except Raised as ex:
+            return "raise", ex.exc_name
+
     for m, (wk, wv) in expect.items():
-        fn = repo.fn(f"{LOC}:_EmptyLocation.{m}")
-        k, v = run(it, fn, args.get(m, []), {}, e)
+        fn = repo.where(f"{LOC}:_EmptyLocation.{m}")
+        k, v = ask(m, args.get(m, []))
         ok = k == wk and ((wv == "empty" and is_empty_obj(v)) or (wv != "empty" and v == wv))
-        r.check(ok, "C02.R4", fn.qual, f"EmptyLocation.{m}", f"EmptyLocation.{m} -> {k}:{_describe(v) if k == 'ok' else v}; expected {wk}:{wv}", fn)
+        r.check(ok, "C02.R4", f"{LOC}:_EmptyLocation.{m}", f"EmptyLocation.{m}", f"EmptyLocation.{m} -> {k}:{_describe(v) if k == 'ok' and isinstance(v, Obj) else v}; expected {wk}:{wv}", fn)
     fe = repo.fn(f"{LOC}:_EmptyLocation.__eq__")
     for what, arg, want in (("the empty location", e, True), ("a non-empty location", other, False), ("None", None, False)):
         k, v = run(it, fe, [arg], {}, e)
@@ -897,9 +907,9 @@ def r4_empty_location(ctx):
     r.check(k == "ok" and not list(it.iterate(v) if v is not None else []), "C02.R4", f"{LOC}:_EmptyLocation.scan_blocks", "EmptyLocation.scan_blocks",
             f"scan_blocks -> {k}:{v}; an empty location has no block to scan", repo.fn(f"{LOC}:_EmptyLocation.scan_blocks"))
     for prop_, want in (("is_empty", True), ("blocks", []), ("num_blocks", 0), ("is_overlapping", False)):
-        fn = repo.fn(f"{LOC}:_EmptyLocation.{prop_}")
-        k, v = run(it, fn, [], {}, e)
-        r.check(k == "ok" and v == want, "C02.R4", fn.qual, f"EmptyLocation.{prop_}", f"EmptyLocation.{prop_} -> {k}:{v}", fn)
+        fn = repo.where(f"{LOC}:_EmptyLocation.{prop_}")
+        k, v = ask(prop_, [])
+        r.check(k == "ok" and v == want, "C02.R4", f"{LOC}:_EmptyLocation.{prop_}", f"EmptyLocation.{prop_}", f"EmptyLocation.{prop_} -> {k}:{v}", fn)
     # and the non-empty classes against it
     for cls, mk in (("SingleInterval", lambda: mk_single(it, 3, 9, S["PLUS"])), ("CompoundInterval", lambda: mk_compound(it, [3, 12], [9, 15], S["PLUS"]))):
         a = mk()
